@@ -36,7 +36,7 @@ Judge(ev) ==
     [] ev.op = "CopyEq"    -> ev.eq /\ ~ev.ne /\ ev.desc1 = ev.desc2
     [] ev.op = "Same"      -> ev.a = ev.b
     [] ev.op = "Agrees"    -> ev.ok /\ ev.same_quantity /\ ev.ppt <= 1000                            \* C04: a ** n against the n-fold product
-    [] ev.op = "SumAgrees" -> ev.ok /\ ev.ppt <= 1000 /\ ev.units_kept /\ ev.left_kept      \* C03 on the real table: 1e-9 of the amounts that entered
+    [] ev.op = "SumAgrees" -> ev.ok /\ ev.ppt <= 1000 /\ ev.comm_ppt <= 1000 /\ ev.units_kept /\ ev.left_kept      \* C03 on the real table: 1e-9 of the amounts that entered; a + b and b + a (a - b and -(b - a)) are one amount in base units
     [] ev.op = "CatConsistent" -> ev.du_registered /\ ev.du_in_valid /\ ev.scalar_built /\ ev.scalar_valid /\ ev.scalar_unit_is_du /\ ev.check_default
     [] ev.op = "SimpleStr" -> ev.unit = ev.u /\ ev.category = ev.c /\ ev.qtype = ev.qt /\ ev.repr_shows /\ ev.str_shows
     [] OTHER -> FALSE
